@@ -11,6 +11,44 @@ from . import AnalysisError
 SMALL = {"m_e"}
 
 
+class _Timeout(Exception):
+    pass
+
+
+class time_limit:
+    """Bound a symbolic step by wall time; the enclosing process alarm (cli budget) is restored."""
+    def __init__(self, seconds):
+        self.seconds = seconds
+
+    def __enter__(self):
+        import signal, time
+        self._signal = signal
+        self._t0 = time.time()
+        self._old_handler = signal.getsignal(signal.SIGALRM)
+        self._old_left = signal.alarm(0)
+
+        def handler(signum, frame):
+            raise _Timeout()
+        try:
+            signal.signal(signal.SIGALRM, handler)
+            signal.setitimer(signal.ITIMER_REAL, self.seconds)
+            self._armed = True
+        except ValueError:      # not in the main thread
+            self._armed = False
+        return self
+
+    def __exit__(self, et, ev, tb):
+        import time
+        signal = self._signal
+        if self._armed:
+            signal.setitimer(signal.ITIMER_REAL, 0)
+            signal.signal(signal.SIGALRM, self._old_handler)
+            if self._old_left:
+                left = max(1, int(self._old_left - (time.time() - self._t0)))
+                signal.alarm(left)
+        return et is not None and issubclass(et, _Timeout) and False
+
+
 def _arms(e):
     """Flatten a (possibly nested) Piecewise into [(expr, [conds...])] with
     the negations of earlier arms made explicit."""
@@ -86,17 +124,27 @@ def is_zero(e, seed=0, points=8):
         return True, "structural", None
     d = e
     size = sp.count_ops(e)
-    if size < 250:
+    # symbolic proof only where it is cheap and safe: rational functions of the symbols
+    try:
+        rational = e.is_rational_function(*e.free_symbols) if e.free_symbols else False
+    except Exception:
+        rational = False
+    if size < 400 and rational:
         try:
-            d = sp.cancel(sp.together(sp.expand_complex(e) if e.has(sp.I) else e))
+            with time_limit(3):
+                d = sp.cancel(sp.together(e))
             if d == 0:
                 return True, "cancel", None
-            if size < 120:
-                d = sp.simplify(d)
-                if d == 0:
-                    return True, "simplify", None
         except Exception:
             d = e
+    elif size < 60:
+        try:
+            with time_limit(3):
+                d2 = sp.simplify(e)
+            if d2 == 0:
+                return True, "simplify", None
+        except Exception:
+            pass
     # evaluation of the expression tree at random rational points (Schwartz-Zippel)
     rng = random.Random(seed * 7919 + 13)
     syms = sorted(d.free_symbols, key=str)
@@ -109,6 +157,14 @@ def is_zero(e, seed=0, points=8):
         syms = sorted(d.free_symbols, key=str)
     bad = None
     agree = 0
+    fast = None
+    try:
+        import mpmath
+        mpmath.mp.dps = 60
+        fast = sp.lambdify(syms, d, modules=[{"pymin": lambda *a: min(a), "pymax": lambda *a: max(a),
+                                              "Max": lambda *a: max(a), "Min": lambda *a: min(a)}, "mpmath"])
+    except Exception:
+        fast = None
     if d.has(sp.Max, sp.Min, sp.Piecewise, sp.Abs) or any(f.func.__name__ in ('pymin', 'pymax') for f in d.atoms(sp.Function) if isinstance(f, sp.core.function.AppliedUndef)):
         points = max(points, 24)
     for _ in range(points):
@@ -127,6 +183,18 @@ def is_zero(e, seed=0, points=8):
                 # so ion masses m - charge*m_e stay positive
                 v = sp.Rational(rng.randint(1, 9), 100000)
             pt[s] = v
+        val = None
+        if fast is not None:
+            try:
+                mv = fast(*[mpmath.mpf(int(pt[s_].p)) / mpmath.mpf(int(pt[s_].q)) for s_ in syms])
+                scale = max([abs(mpmath.mpf(int(pt[s_].p)) / mpmath.mpf(int(pt[s_].q))) for s_ in syms] + [1])
+                if isinstance(mv, (mpmath.mpf, mpmath.mpc, int, float)) and mpmath.isfinite(mv):
+                    if abs(mv) < mpmath.mpf(10) ** -38 * (1 + scale):
+                        agree += 1
+                        continue
+                    # a non-zero value is confirmed with exact arithmetic below before it is reported
+            except Exception:
+                pass
         try:
             val = _minmax_eval(d.xreplace(pt))
             val = sp.N(val, 50)
